@@ -67,11 +67,234 @@ theorem missing_args (fmt : Bytes) (args : List Bytes) (m : Nat) :
     (formatArgs fmt (args ++ List.replicate m [])).view = (formatArgs fmt args).view :=
   go_missing formatNil nestedOK_formatNil m fmt 0 [] args FmtsOK_nil
 
+/-! ## escape sequences -/
+
+/-- The single-character escapes `\a \b \e \E \f \n \r \t \v \\ \' \" \?`: model and bash
+    specification (format-string mode) write the same byte and consume one character, whatever
+    follows. -/
+theorem escapes_table (p : UInt8 × UInt8) (hp : p ∈ escTable) (rest : Bytes) :
+    escape (p.1 :: rest) = some ([p.2], 1) ∧
+    Spec.escape .format (p.1 :: rest) = { out := [p.2], used := 1 } := by
+  refine ⟨escape_table p hp rest, ?_⟩
+  simp only [escTable, List.mem_cons, List.not_mem_nil, or_false] at hp
+  rcases hp with h | h | h | h | h | h | h | h | h | h | h | h | h <;> subst h <;>
+    simp [Spec.escape, Spec.simpleEscape]
+
+/-- Digit counts of `\nnn`: one to three digit characters are consumed (never a fourth, whatever
+    follows) and exactly one byte is written. -/
+theorem octal_hex_bounds_octal (c : UInt8) (ds rest : Bytes) (hc : 48 ≤ c ∧ c ≤ 55)
+    (hds : ∀ d ∈ ds, 48 ≤ d ∧ d ≤ 57) (hlen : ds.length ≤ 2)
+    (hstop : ds.length = 2 ∨ ∀ x r, rest = x :: r → ¬ (48 ≤ x ∧ x ≤ 57)) :
+    escape (c :: ds ++ rest) = some ([UInt8.ofNat (parseUint (c :: ds) 8 8).1], ds.length + 1) :=
+  escape_octal c ds rest hc hds hlen hstop
+
+/-- The byte of an octal escape with genuine octal digits is its value — capped at 0xff, where
+    bash takes the value modulo 256 (finding C24-octal-escape-range). -/
+theorem octal_value (ds : Bytes) (hne : ds ≠ []) (h : ∀ d ∈ ds, 48 ≤ d ∧ d ≤ 55) :
+    (parseUint ds 8 8).1 = min (foldv 8 ds 0) 255 :=
+  parseUint_octal ds hne h
+
+/-- `\xH[H]`: at most two hexadecimal digits, always a single byte; `\uHHHH` / `\UHHHHHHHH`: at most
+    4 / 8 digits, written as Go's `WriteRune` encodes the number. -/
+theorem octal_hex_bounds_hex (c : UInt8) (hc : c = 120 ∨ c = 117 ∨ c = 85) (ds rest : Bytes)
+    (hds : ∀ d ∈ ds, isDigitChar true d = true) (hne : ds ≠ [])
+    (hlen : ds.length ≤ (if c = 117 then 4 else if c = 85 then 8 else 2))
+    (hstop : ds.length = (if c = 117 then 4 else if c = 85 then 8 else 2) ∨
+      ∀ x r, rest = x :: r → isDigitChar true x = false) :
+    escape (c :: ds ++ rest) =
+      some (if c = 120 then [UInt8.ofNat (foldv 16 ds 0)] else appendRune (foldv 16 ds 0), 1 + ds.length) :=
+  escape_hex c hc ds rest hds hne hlen hstop
+
+/-- An escape is processed wherever it stands — even in the middle of a directive. -/
+theorem escape_in_loop (n : Option (Bytes → Res)) (rest o : Bytes) (k : Nat) (st : St)
+    (h : escape rest = some (o, k)) : go n (92 :: rest) 0 st = (go n rest k st).prepend o :=
+  go_escape n rest o k st h
+
+/-! ## directives -/
+
+/-- A directive `%[flag][0…][width]verb` is processed as a unit: it writes `d.out` of the first
+    argument (of the empty string when none is left) and the loop continues after it with the
+    remaining arguments. -/
+theorem directive_sem_step (d : MDir) (h : d.WF) (rest : Bytes) (args : List Bytes) :
+    go (some formatNil) (d.render ++ rest) 0 ⟨[], args⟩ =
+      (go (some formatNil) rest 0 ⟨[], args.tail⟩).prepend (d.out formatNil (args.headD [])) :=
+  go_directive_out formatNil nestedOK_formatNil d h rest args
+
+/-- `%d %i` with any accepted flag, `0` and width (≤ 6 digits): C's rendering of the value. -/
+theorem directive_sem_signed (d : MDir) (h : d.WF) (hw : d.width.length ≤ 6)
+    (hv : d.verb = 100 ∨ d.verb = 105) (a : Bytes) :
+    d.out formatNil a = Spec.fmtSigned d.spec (parseInt a).1 :=
+  dir_out_signed formatNil d h hw hv a
+
+/-- `%u %o %x` with flag `-` or none, `0` and width: C's rendering of the value modulo 2^64. -/
+theorem directive_sem_unsigned (d : MDir) (h : d.WF) (hw : d.width.length ≤ 6)
+    (hv : d.verb = 117 ∨ d.verb = 111 ∨ d.verb = 120) (hfl : d.flag = [] ∨ d.flag = [45]) (a : Bytes) :
+    d.out formatNil a = Spec.fmtUnsigned d.spec
+      (if d.verb = 111 then 8 else if d.verb = 120 then 16 else 10) (toU64 (parseInt a).1) :=
+  dir_out_unsigned formatNil d h hw hv hfl a
+
+/-- `%s` without `0` flag, with no width or an ASCII argument: bash's padding. -/
+theorem directive_sem_string (d : MDir) (h : d.WF) (hw : d.width.length ≤ 6) (hv : d.verb = 115)
+    (hz : d.zeros = 0) (a : Bytes) (ha : d.width = [] ∨ ∀ b ∈ a, b < 128) :
+    d.out formatNil a = (Spec.runDir d.spec a).out := by
+  rw [dir_out_string formatNil d h hw hv hz a ha]
+  simp [Spec.runDir, MDir.spec, hv]
+
+/-- `%c` without width: the first byte, or NUL — as bash. -/
+theorem directive_sem_char (d : MDir) (hv : d.verb = 99) (hw : d.width = []) (a : Bytes) :
+    d.out formatNil a = (Spec.runDir d.spec a).out := by
+  rw [dir_out_char formatNil d hv a]
+  simp [Spec.runDir, MDir.spec, hv, hw, decv, Spec.padTo, Spec.spaces]
+
+/-- Go's `ParseInt(arg, 0, 0)` result is always an int64 (so `int(n)`/`uint(n)` are exact). -/
+theorem parse_int_range (a : Bytes) :
+    -9223372036854775808 ≤ (parseInt a).1 ∧ (parseInt a).1 ≤ 9223372036854775807 :=
+  parseInt_range a
+
+/-! ## the property itself, and where it fails
+
+  `PrintfLikeBash ws` / `EchoLikeBash ws`: on the words `ws` the model of the builtin writes the
+  bytes and returns the status the specification of bash gives.  The full statements (all words
+  for which the specification is defined) are false; the theorems `finding_*` are the concrete
+  counter-examples, one per recorded finding (same witnesses as corpus/C24-known.txt). -/
+
+def PrintfLikeBash (ws : List Bytes) : Prop :=
+  ∀ out st, Spec.printf ws = .res out st → printfBuiltin ws = .done ⟨out, st⟩
+
+def EchoLikeBash (ws : List Bytes) : Prop :=
+  ∀ out st, Spec.echo ws = .res out st → echoBuiltin ws = .done ⟨out, st⟩
+
+def printf_like_bash_statement : Prop := ∀ ws, PrintfLikeBash ws
+def echo_like_bash_statement : Prop := ∀ ws, EchoLikeBash ws
+
+/-- `printf '%-+5d|' 3` -/
+theorem finding_multi_flags :
+    printfBuiltin [[37,45,43,53,100,124],[51]] = .done ⟨[], 1⟩ ∧
+    Spec.printf [[37,45,43,53,100,124],[51]] = .res [43,51,32,32,32,124] 0 := by decide
+/-- `printf %d 12abc` -/
+theorem finding_invalid_number :
+    printfBuiltin [[37,100],[49,50,97,98,99]] = .done ⟨[48], 0⟩ ∧
+    Spec.printf [[37,100],[49,50,97,98,99]] = .res [49,50] 1 := by decide
+/-- `printf %d 1_000` -/
+theorem finding_go_int_syntax :
+    printfBuiltin [[37,100],[49,95,48,48,48]] = .done ⟨[49,48,48,48], 0⟩ ∧
+    Spec.printf [[37,100],[49,95,48,48,48]] = .res [49] 1 := by decide
+/-- `printf %d "'a"` -/
+theorem finding_bash_number_forms :
+    printfBuiltin [[37,100],[39,97]] = .done ⟨[48], 0⟩ ∧
+    Spec.printf [[37,100],[39,97]] = .res [57,55] 0 := by decide
+/-- `printf %u 18446744073709551615` -/
+theorem finding_unsigned_range :
+    printfBuiltin [[37,117],[49,56,52,52,54,55,52,52,48,55,51,55,48,57,53,53,49,54,49,53]] =
+      .done ⟨[57,50,50,51,51,55,50,48,51,54,56,53,52,55,55,53,56,48,55], 0⟩ ∧
+    Spec.printf [[37,117],[49,56,52,52,54,55,52,52,48,55,51,55,48,57,53,53,49,54,49,53]] =
+      .res [49,56,52,52,54,55,52,52,48,55,51,55,48,57,53,53,49,54,49,53] 0 := by decide
+/-- `printf '%+u|' 5` -/
+theorem finding_unsigned_sign_flag :
+    printfBuiltin [[37,43,117,124],[53]] = .done ⟨[43,53,124], 0⟩ ∧
+    Spec.printf [[37,43,117,124],[53]] = .res [53,124] 0 := by decide
+/-- `printf '%5c|' a` -/
+theorem finding_width_ignored_c_b :
+    printfBuiltin [[37,53,99,124],[97]] = .done ⟨[97,124], 0⟩ ∧
+    Spec.printf [[37,53,99,124],[97]] = .res [32,32,32,32,97,124] 0 := by decide
+/-- `printf '%05s|' ab` -/
+theorem finding_zero_flag_string :
+    printfBuiltin [[37,48,53,115,124],[97,98]] = .done ⟨[48,48,48,97,98,124], 0⟩ ∧
+    Spec.printf [[37,48,53,115,124],[97,98]] = .res [32,32,32,97,98,124] 0 := by decide
+/-- `printf '%5s|' é` -/
+theorem finding_width_counts_runes :
+    printfBuiltin [[37,53,115,124],[0xc3,0xa9]] = .done ⟨[32,32,32,32,0xc3,0xa9,124], 0⟩ ∧
+    Spec.printf [[37,53,115,124],[0xc3,0xa9]] = .res [32,32,32,0xc3,0xa9,124] 0 := by decide
+/-- `printf '\400'` -/
+theorem finding_octal_escape_range :
+    printfBuiltin [[92,52,48,48]] = .done ⟨[255], 0⟩ ∧ Spec.printf [[92,52,48,48]] = .res [0] 0 := by decide
+/-- `printf '\18'` -/
+theorem finding_octal_escape_89 :
+    printfBuiltin [[92,49,56]] = .done ⟨[0], 0⟩ ∧ Spec.printf [[92,49,56]] = .res [1,56] 0 := by decide
+/-- `printf %b '\0123'` -/
+theorem finding_b_octal_zero :
+    printfBuiltin [[37,98],[92,48,49,50,51]] = .done ⟨[10,51], 0⟩ ∧
+    Spec.printf [[37,98],[92,48,49,50,51]] = .res [83] 0 := by decide
+/-- `printf %b 'a\cb' x` -/
+theorem finding_backslash_c :
+    printfBuiltin [[37,98],[97,92,99,98],[120]] = .done ⟨[97,92,99,98,120], 0⟩ ∧
+    Spec.printf [[37,98],[97,92,99,98],[120]] = .res [97] 0 := by decide
+/-- `echo -e 'a\cb'` -/
+theorem finding_echo_backslash_c :
+    echoBuiltin [[45,101],[97,92,99,98]] = .done ⟨[97,92,99,98,10], 0⟩ ∧
+    Spec.echo [[45,101],[97,92,99,98]] = .res [97] 0 := by decide
+/-- `printf %b "\\'"` -/
+theorem finding_b_quote_escapes :
+    printfBuiltin [[37,98],[92,39]] = .done ⟨[39], 0⟩ ∧
+    Spec.printf [[37,98],[92,39]] = .res [92,39] 0 := by decide
+/-- `echo -e "\\'"` -/
+theorem finding_echo_quote_escapes :
+    echoBuiltin [[45,101],[92,39]] = .done ⟨[39,10], 0⟩ ∧
+    Spec.echo [[45,101],[92,39]] = .res [92,39,10] 0 := by decide
+/-- `echo -e '\0123'` -/
+theorem finding_echo_octal_zero :
+    echoBuiltin [[45,101],[92,48,49,50,51]] = .done ⟨[10,51,10], 0⟩ ∧
+    Spec.echo [[45,101],[92,48,49,50,51]] = .res [83,10] 0 := by decide
+/-- `echo -e '\123'` -/
+theorem finding_echo_octal_nonzero :
+    echoBuiltin [[45,101],[92,49,50,51]] = .done ⟨[83,10], 0⟩ ∧
+    Spec.echo [[45,101],[92,49,50,51]] = .res [92,49,50,51,10] 0 := by decide
+/-- `echo -ne 'a\n'` -/
+theorem finding_echo_combined_options :
+    echoBuiltin [[45,110,101],[97,92,110]] = .done ⟨[45,110,101,32,97,92,110,10], 0⟩ ∧
+    Spec.echo [[45,110,101],[97,92,110]] = .res [97,10] 0 := by decide
+/-- `echo -e -E 'a\tb'` -/
+theorem finding_echo_big_e :
+    echoBuiltin [[45,101],[45,69],[97,92,116,98]] = .done ⟨[97,9,98,10], 0⟩ ∧
+    Spec.echo [[45,101],[45,69],[97,92,116,98]] = .res [97,92,116,98,10] 0 := by decide
+/-- `printf '\%d|' 5` -/
+theorem finding_backslash_percent :
+    printfBuiltin [[92,37,100,124],[53]] = .done ⟨[92,37,100,124], 0⟩ ∧
+    Spec.printf [[92,37,100,124],[53]] = .res [92,53,124] 0 := by decide
+/-- `printf '\ud800'` -/
+theorem finding_unicode_invalid :
+    printfBuiltin [[92,117,100,56,48,48]] = .done ⟨[0xef,0xbf,0xbd], 0⟩ ∧
+    Spec.printf [[92,117,100,56,48,48]] = .res [0xed,0xa0,0x80] 0 := by decide
+/-- `printf -- %s a` -/
+theorem finding_no_option_parsing :
+    printfBuiltin [[45,45],[37,115],[97]] = .done ⟨[45,45], 0⟩ ∧
+    Spec.printf [[45,45],[37,115],[97]] = .res [97] 0 := by decide
+/-- `printf '%10000010d' 1`: Go's fmt gives up on the width (the bash side, ten million spaces, is
+    not evaluated here). -/
+theorem finding_huge_width :
+    printfBuiltin [[37,49,48,48,48,48,48,49,48,100],[49]] =
+      .done ⟨[37,33,40,78,79,86,69,82,66,41,37,33,40,69,88,84,82,65,32,105,110,116,61,49,41], 0⟩ := by decide
+
+/-- The property as stated (all words) does not hold of the model. -/
+theorem printf_like_bash_fails : ¬ printf_like_bash_statement := by
+  intro h
+  have := h [[37,45,43,53,100,124],[51]] _ _ finding_multi_flags.2
+  rw [finding_multi_flags.1] at this
+  exact absurd this (by decide)
+
+theorem echo_like_bash_fails : ¬ echo_like_bash_statement := by
+  intro h
+  have := h [[45,110,101],[97,92,110]] _ _ finding_echo_combined_options.2
+  rw [finding_echo_combined_options.1] at this
+  exact absurd this (by decide)
+
 /-! Non-vacuity -/
 example : printfBuiltin [[37, 100, 95], [49], [50], [51]] = .done ⟨[49, 95, 50, 95, 51, 95], 0⟩ := by decide
 example : Reuse [37, 100, 95] [[49], [50]] [49, 95, 50, 95] :=
   Reuse.more [[49]] [[50]] [49, 95] [50, 95] (by decide) (by decide) (by decide) (Reuse.last _ _ (by decide))
 example : (formatArgs [37] []).errOf = some .missingChar := by decide
 example : formatArgs [37, 99, 37, 100] [] = .ok [0, 48] 0 := by decide
+
+example : PrintfLikeBash [[37, 48, 50, 100, 32, 37, 120, 10], [49], [50, 53, 53], [51]] := by
+  intro out st h
+  have h' : Spec.printf [[37, 48, 50, 100, 32, 37, 120, 10], [49], [50, 53, 53], [51]] =
+      .res [48, 49, 32, 102, 102, 10, 48, 51, 32, 48, 10] 0 := by decide
+  rw [h'] at h; cases h; decide
+example : EchoLikeBash [[45, 101], [97, 92, 116, 98], [92, 120, 52, 49]] := by
+  intro out st h
+  have h' : Spec.echo [[45, 101], [97, 92, 116, 98], [92, 120, 52, 49]] = .res [97, 9, 98, 32, 65, 10] 0 := by
+    decide
+  rw [h'] at h; cases h; decide
+example : (⟨[45], 0, [53], 100⟩ : MDir).WF := ⟨by simp, by decide, by simp, by decide⟩
 
 end ShVerif.C24
